@@ -93,9 +93,29 @@ def gen_case(rng, i, tier, stats):
         cfg["pip"] = rng.choice(["0.8", "0.5", "1.0"])
     if rng.chance(0.1):
         cfg["fsgusefiller"] = "no"
+    addwords = []
+    if model == "en-us" and gk == "text" and rng.chance(0.2):
+        # a word added at run time (decoder_add_word) with a generated pronunciation of 1-7 phones
+        phones = ["AA", "AE", "AH", "AO", "B", "D", "EH", "ER", "F", "G", "IY", "K", "M", "N", "OW", "R", "S", "T", "W", "Z"]
+        nm = f"zzw{rng.below(100000)}"
+        pr = " ".join(rng.choice(phones) for _ in range(rng.weighted([(1, 25), (2, 20), (3, 20), (5, 20), (7, 15)])))
+        addwords.append([nm, pr])
+        ws = gram.split()
+        ws[rng.below(len(ws))] = nm
+        gram = " ".join(ws)
+    noise = None
+    if rng.chance(0.06):
+        # (amplitude 0 = digital silence makes the front end produce NaN features: C18's subject, not used here)
+        noise = [rng.below(1 << 30), rng.range(3000, 30000), rng.choice([3, 30, 300, 3000])]
     case = {"id": f"g{i}", "model": model, "cfg": cfg, "gram": [gk, gram], "audio": [str(path), skip, start, n],
+            "addwords": addwords, "noise": noise, "tmatskip": (rng.choice([20, 60, 120]) if rng.chance(0.07) else 0),
             "audio_name": an, "mode": mode, "chunk": chunk, "partials": partials, "early": int(rng.chance(0.15)),
-            "dumpsen": 0}
+            "dumpsen": int(rng.chance(0.35))}
+    if case["tmatskip"]:
+        case["dumpsen"] = 1
+    for k, v in (("addword", bool(addwords)), ("noise_audio", bool(noise)), ("tmatskip", bool(case["tmatskip"]))):
+        if v:
+            stats["extra"][k] = stats["extra"].get(k, 0) + 1
     for k, v in (("audio", an), ("clip", ck), ("grammar", gk), ("mode", mode)):
         stats[k][v] = stats[k].get(v, 0) + 1
     stats["cfg"]["compallsen=" + cfg.get("compallsen", "no")] = stats["cfg"].get("compallsen=" + cfg.get("compallsen", "no"), 0) + 1
@@ -108,8 +128,15 @@ def case_text(case):
     for k, v in sorted(case["cfg"].items()):
         ls.append(f"cfg {k} {v}")
     ls.append(f"{case['gram'][0]} {hx(case['gram'][1])}")
+    for w, pr in case.get("addwords") or []:
+        ls.append(f"addword {hx(w)} {hx(pr)}")
     a = case["audio"]
-    ls.append(f"audio {vlib.REPO / a[0]} {a[1]} {a[2]} {a[3]}")
+    if case.get("noise"):
+        ls.append("noise " + " ".join(str(x) for x in case["noise"]))
+    else:
+        ls.append(f"audio {vlib.REPO / a[0]} {a[1]} {a[2]} {a[3]}")
+    if case.get("tmatskip"):
+        ls.append(f"tmatskip {case['tmatskip']}")
     ls.append(f"mode {case['mode']}")
     ls.append(f"chunk {case['chunk']}")
     if case["partials"]:
@@ -151,7 +178,7 @@ def run_cases(binp, model, cases, timeout=1800):
         lines = out.split("\n")
         if "ENDMODEL" not in lines:
             for cs in todo:
-                res[cs["id"]] = {"crash": True, "rc": rc, "stderr": err[-3000:], "blocks": [], "head": None, "open": None}
+                res[cs["id"]] = {"crash": True, "rc": rc, "stderr": err[:4000] + "\n...\n" + err[-1500:], "blocks": [], "head": None, "open": None}
             return model_block or [], res
         k = lines.index("ENDMODEL")
         model_block = lines[:k + 1]
@@ -180,7 +207,7 @@ def run_cases(binp, model, cases, timeout=1800):
             break
         # the first unfinished case is the one that was running when the process ended
         bad = rest[0]
-        res[bad["id"]] = {"crash": True, "rc": rc, "stderr": err[-3000:], "blocks": blocks if cur == bad["id"] else [],
+        res[bad["id"]] = {"crash": True, "rc": rc, "stderr": err[:4000] + "\n...\n" + err[-1500:], "blocks": blocks if cur == bad["id"] else [],
                           "head": head if cur == bad["id"] else None, "open": blk}
         todo = rest[1:]
     return model_block or [], res
@@ -280,7 +307,13 @@ def judge_block(case, hb, db, ci_names, stats):
         return probs
     ok = next((l for l in db if l.startswith("OK ")), None)
     okd = kv(ok) if ok else {}
-    if okd.get("tree") != "1" or okd.get("alignOK") != "1" or okd.get("flat") != "1" or okd.get("iter") != "1":
+    skip = bool(case.get("tmatskip"))
+    if skip and a.startswith("A ok"):
+        k = "alignOK=" + okd.get("alignOK", "?") + " (skip transitions added to every tmat)"
+        stats["skip_probe"][k] = stats["skip_probe"].get(k, 0) + 1
+    if skip and okd.get("flat") == "1" and okd.get("iter") == "1":
+        pass        # hypothesis NoSkip is false: the hierarchy predicate is observed, not required
+    elif okd.get("tree") != "1" or okd.get("alignOK") != "1" or okd.get("flat") != "1" or okd.get("iter") != "1":
         probs.append({"what": "the alignment returned through the iterator API violates the hierarchy predicate AlignOK",
                       "detail": {"checker": ok, "first_pass": fpw, "words": [w[1:7] for w in hW]}, "impl": True,
                       "key": None, "tie": False})
@@ -301,12 +334,35 @@ def judge_block(case, hb, db, ci_names, stats):
                                                                         "model_result": da}, "impl": False, "key": None, "tie": True})
         hyp = next((l for l in db if l.startswith("HYP ")), None)
         hd = kv(hyp) if hyp else {}
-        if hd.get("wf") != "1":
+        if skip:
+            k = f"wf={hd.get('wf')} noskip={hd.get('noskip')}"
+            stats["skip_probe"][k] = stats["skip_probe"].get(k, 0) + 1
+            if hd.get("noskip") != "0":
+                probs.append({"what": "skip probe: NoSkip evaluated true on a matrix with skip transitions", "detail": hyp,
+                              "impl": False, "key": None, "tie": True})
+        elif hd.get("wf") != "1":
             probs.append({"what": "hypothesis WFTokens of C04_backtrace_partition does not hold on the dumped token stack",
                           "detail": hyp, "impl": False, "key": None, "tie": True})
-        if hd.get("noskip") != "1":
+        if not skip and hd.get("noskip") != "1":
             probs.append({"what": "hypothesis NoSkip does not hold for a transition matrix used by the alignment",
                           "detail": hyp, "impl": False, "key": None, "tie": True})
+        stp = next((l for l in db if l.startswith("STEP ")), None)
+        if stp:
+            sd = kv(stp)
+            if sd.get("na") == "1":
+                stats["step_model_not_applicable"] += 1
+            else:
+                stats["step_model_blocks"] += 1
+                stats["step_model_frames"] += int(sd.get("frames", 0))
+                stats["step_manual_pass_equals_decoder_pass"] += int(sd.get("manual_eq_decoder") == "1")
+                if sd.get("ranges") != "1" or sd.get("renorm") != "0":
+                    probs.append({"what": "hypotheses of C04_alignStep_tokens_local_partial (value ranges, no renormalisation) "
+                                          "do not hold on the dumped second pass", "detail": stp, "impl": False, "key": None,
+                                  "tie": True})
+                if sd.get("eq") != "1":
+                    probs.append({"what": "step model (constrained Viterbi over the dumped senone scores) does not reproduce the "
+                                          "token stack of the real state_align_search_step", "detail": stp, "impl": False,
+                                  "key": None, "tie": True})
         T = int(hd.get("nframe", 0))
         stats["frames"].append(T)
         stats["states"].append(len(hS))
@@ -322,7 +378,7 @@ def judge_block(case, hb, db, ci_names, stats):
             if d[1] != d[3]:
                 stats["alt_pron_words"] += 1
     # ---- relation to the first-pass scores
-    if srch and hW and len(hW) == len(fpw) and a.startswith("A ok"):
+    if srch and hW and len(hW) == len(fpw) and a.startswith("A ok") and not skip:
         wip, pip = int(srch[1]), int(srch[2])
         diffs = []
         for i, (w, f) in enumerate(zip(hW, fpw)):
@@ -415,8 +471,8 @@ def run_synth(c, synths, stats, label):
     for sy in synths:
         k = f"REQ {sy['id']} synth"
         h, d = hb.get(k), db.get(k)
-        if h is None or d is None:
-            bad.append({"synth": sy, "what": "no output block"})
+        if h is None or d is None or any(l.startswith("error") for l in h):
+            bad.append({"synth": sy, "what": "no output block / harness error", "block": (h or [])[:4]})
             continue
         hs = sorted(canon_h(l) for l in h if l.startswith(DIFFED + ("A ",)))
         ds = sorted(l for l in d if l.startswith(DIFFED + ("A ",)))
@@ -437,11 +493,12 @@ def run_synth(c, synths, stats, label):
 
 
 def new_stats():
-    return {"audio": {}, "clip": {}, "grammar": {}, "mode": {}, "cfg": {}, "requests": 0, "partial": 0, "final": 0,
+    return {"extra": {}, "skip_probe": {}, "audio": {}, "clip": {}, "grammar": {}, "mode": {}, "cfg": {}, "requests": 0, "partial": 0, "final": 0,
             "alignments": 0, "null_results": 0, "null_no_words": 0, "null_circular_buffer": 0,
             "fp_with_nondict_segments": 0, "frames": [], "states": [], "words": [], "pron_len": {}, "filler_words": 0,
             "alt_pron_words": 0, "score_clause_exact_words": 0, "score_clause_default_words": 0, "score_d12_blocks": 0,
-            "synth": {}, "synth_results_with_skipped_states": 0, "score_xword_context": 0, "score_first_pass_pruned": 0, "crashes": 0, "grammar_rejected": 0}
+            "synth": {}, "synth_results_with_skipped_states": 0, "step_model_blocks": 0, "step_model_frames": 0,
+            "step_manual_pass_equals_decoder_pass": 0, "step_model_not_applicable": 0, "score_xword_context": 0, "score_first_pass_pruned": 0, "crashes": 0, "grammar_rejected": 0}
 
 
 def evaluate(c, binp, cases, stats, label):
@@ -478,10 +535,15 @@ def evaluate(c, binp, cases, stats, label):
                 if r["crash"]:
                     stats["crashes"] += 1
                     opn = r.get("open")
-                    probs.append({"what": "sanitizer report / assertion / abort inside the library during an alignment request",
+                    in_align = bool(opn) and "decoder_alignment" in r["stderr"]
+                    probs.append({"what": "sanitizer report / assertion / abort inside the library during an alignment request"
+                                  if in_align else
+                                  "the library aborted outside decoder_alignment (first pass / set-up): harness error to "
+                                  "investigate, not a C04 witness",
                                   "detail": {"exit_code": r["rc"], "request": opn[0] if opn else None,
                                              "first_pass": [l for l in (opn or []) if l.startswith("FP ")],
-                                             "stderr_tail": r["stderr"][-1800:]}, "impl": True, "key": None, "tie": False})
+                                             "stderr": r["stderr"]}, "impl": in_align, "key": None,
+                                  "tie": not in_align})
             out[cs["id"]] = probs
     return out
 
@@ -523,10 +585,12 @@ def shrink(c, binp, case, probs):
 
 def report(c, binp, case, probs, label, do_shrink=True):
     real = [p for p in probs if p["key"] is None]
+    seen = c.__dict__.setdefault("_c04_keys", set())
     for p in probs:
-        if p["key"] is not None:
-            c.violation({"kind": "alignment", "case": case, "problem": p["what"], "detail": p["detail"]}, True,
-                        finding_key=p["key"])
+        if p["key"] is not None and p["key"] not in seen:
+            seen.add(p["key"])        # one witness per finding class and run
+            c.violation({"kind": "alignment", "case": case, "problem": p["what"], "detail": p["detail"],
+                         "finding_key": p["key"]}, True, finding_key=p["key"])
     if not real:
         return True
     small, sp = (shrink(c, binp, case, probs) if do_shrink else (case, real))
@@ -618,7 +682,8 @@ def check(c):
     c.oblige("every generated alignment request: AlignOK holds on the API output, NULL only when no word / no rewind, "
              "score clause (compallsen=yes exact)", allok)
     c.oblige("correspondence: populate + windows + backtrace + propagate of the model = real code on every dumped token stack; "
-             "WFTokens and NoSkip hold on the dumped data", allok)
+             "WFTokens and NoSkip hold on the dumped data; the step model reproduces the token stack from the dumped senone scores",
+             allok)
     s = summarise(stats)
     c.cov.update({"evaluations": stats["requests"], "distinct_nontrivial": stats["alignments"],
                   "rule": "alignment requests (final and partial) on generated (grammar, clip, mode, chunking, configuration) "
